@@ -366,3 +366,240 @@ def rows_ok(rows: list[dict]) -> tuple[bool, bool]:
         cut_ok &= r['cut'] == cut and r['exact']
         dest_ok &= r['dest'] == dest and r['off'] == off and r['stored_none'] == (dest != 'DArch')
     return cut_ok, dest_ok
+
+
+# ------------------------------------------------------------------------------------------------ FileInfo.read / FileInfo.verify
+class _RetV(Exception):
+    def __init__(self, v):
+        self.v = v
+
+
+class _SymR:
+    """FileInfo.read / verify on symbolic values: scenario = (arch_len is zero?, arch_index is None?)."""
+    def __init__(self, scen: dict, self_name: str, cls: ast.ClassDef, depth: int = 0):
+        self.scen, self.self_name, self.cls, self.depth = scen, self_name, cls, depth
+        self.env: dict[str, tuple] = {}
+        self.files: dict[int, dict] = {}
+        self.nfile = 0
+
+    NUM = ('off', 'alen', 'int', 'add')
+
+    def attr(self, base: tuple, name: str, node) -> tuple:
+        if base == ('self',):
+            m = {'start_data': ('start',), 'offset': ('off',), 'arch_len': ('alen',), 'crc': ('crc',), 'vpk': ('vpk',)}
+            if name == 'arch_index':
+                return ('none',) if self.scen['idx_none'] else ('idx',)
+            if name in m:
+                return m[name]
+        if base == ('vpk',):
+            m = {'footer_data': ('footer0',), 'file_prefix': ('file_prefix',), '_dir_prefix': ('prefix',), 'folder': ('folder',)}
+            if name in m:
+                return m[name]
+        if base == ('mod', 'os') and name == 'path':
+            return ('mod', 'os.path')
+        raise TranslateError(f'line {node.lineno}: FileInfo.read/verify: attribute {name} of {base} not understood')
+
+    def truth(self, v: tuple, node) -> bool:
+        if v[0] == 'bool':
+            return v[1]
+        if v == ('alen',):
+            return not self.scen['alen_zero']
+        if v == ('none',):
+            return False
+        raise TranslateError(f'line {node.lineno}: FileInfo.read/verify: truth value of {v} not understood')
+
+    def ev(self, e) -> tuple:
+        if isinstance(e, ast.Constant):
+            if e.value is None:
+                return ('none',)
+            if isinstance(e.value, bool):
+                return ('bool', e.value)
+            if isinstance(e.value, int):
+                return ('int', e.value)
+            if isinstance(e.value, (str, bytes)):
+                return ('str', e.value)
+        if isinstance(e, ast.Name):
+            if e.id == self.self_name:
+                return ('self',)
+            if e.id in self.env:
+                return self.env[e.id]
+            if e.id == 'os':
+                return ('mod', 'os')
+            raise TranslateError(f'line {e.lineno}: FileInfo.read/verify: name {e.id} not understood')
+        if isinstance(e, ast.Attribute):
+            return self.attr(self.ev(e.value), e.attr, e)
+        if isinstance(e, ast.UnaryOp) and isinstance(e.op, ast.Not):
+            return ('bool', not self.truth(self.ev(e.operand), e))
+        if isinstance(e, ast.IfExp):
+            return self.ev(e.body) if self.truth(self.ev(e.test), e) else self.ev(e.orelse)
+        if isinstance(e, ast.BoolOp):
+            v = None
+            for x in e.values:
+                v = self.ev(x)
+                t = self.truth(v, e)
+                if (isinstance(e.op, ast.And) and not t) or (isinstance(e.op, ast.Or) and t):
+                    return v
+            return v
+        if isinstance(e, ast.Compare) and len(e.ops) == 1:
+            a, b, op = self.ev(e.left), self.ev(e.comparators[0]), e.ops[0]
+            if ('none',) in (a, b) and isinstance(op, (ast.Is, ast.IsNot, ast.Eq, ast.NotEq)):
+                other = a if b == ('none',) else b
+                if other not in (('idx',), ('none',)):
+                    raise TranslateError(f'line {e.lineno}: FileInfo.read/verify: comparison of {other} with None')
+                r = other == ('none',)
+                return ('bool', r if isinstance(op, (ast.Is, ast.Eq)) else not r)
+            if {a, b} == {('alen',), ('int', 0)}:
+                z = self.scen['alen_zero']
+                if isinstance(op, ast.Eq):
+                    return ('bool', z)
+                if isinstance(op, ast.NotEq) or (isinstance(op, ast.Gt) and a == ('alen',)) or (isinstance(op, ast.Lt) and b == ('alen',)):
+                    return ('bool', not z)
+            if isinstance(op, ast.Eq):
+                return ('eq', a, b)
+            raise TranslateError(f'line {e.lineno}: FileInfo.read/verify: comparison {ast.unparse(e)[:60]} not understood')
+        if isinstance(e, ast.BinOp) and isinstance(e.op, ast.Add):
+            a, b = self.ev(e.left), self.ev(e.right)
+            if a[0] in self.NUM and b[0] in self.NUM:
+                return ('add',) + tuple(sorted([a, b]))
+            return ('cat', a, b)
+        if isinstance(e, ast.Subscript) and isinstance(e.slice, ast.Slice) and e.slice.step is None:
+            base = self.ev(e.value)
+            lo = None if e.slice.lower is None else self.ev(e.slice.lower)
+            hi = None if e.slice.upper is None else self.ev(e.slice.upper)
+            if base == ('footer0',) and lo == ('off',) and hi == ('add', ('alen',), ('off',)):
+                return ('fslice',)
+            raise TranslateError(f'line {e.lineno}: FileInfo.read/verify: slice {ast.unparse(e)[:60]} not understood')
+        if isinstance(e, ast.Call) and not e.keywords:
+            f = e.func
+            args = [self.ev(a) for a in e.args]
+            if isinstance(f, ast.Name):
+                if f.id == 'checksum' and len(args) == 1:
+                    return ('cksum', args[0])
+                if f.id == 'checksum' and len(args) == 2:
+                    return ('cksum2', args[0], args[1])
+                if f.id == 'get_arch_filename' and len(args) == 2:
+                    return ('archname', args[0], args[1])
+                if f.id == 'open' and len(args) == 2 and args[1][0] == 'str':
+                    self.nfile += 1
+                    self.files[self.nfile] = {'path': args[0], 'mode': args[1][1], 'pos': ('int', 0)}
+                    return ('file', self.nfile)
+                if f.id == 'bytes' and len(args) == 1:
+                    return args[0]
+            if isinstance(f, ast.Attribute):
+                base = self.ev(f.value)
+                if base == ('mod', 'os.path') and f.attr == 'join':
+                    return ('join',) + tuple(args)
+                if base == ('self',) and f.attr == 'read' and not args and self.depth == 0:
+                    rd = [n for n in self.cls.body if isinstance(n, ast.FunctionDef) and n.name == 'read']
+                    if len(rd) == 1:
+                        return _run_reader(rd[0], self.cls, self.scen, depth=1)[0]
+                if base[0] == 'file':
+                    fo = self.files[base[1]]
+                    if f.attr == 'seek' and len(args) == 1:
+                        fo['pos'] = args[0]
+                        return args[0]
+                    if f.attr == 'read' and len(args) <= 1:
+                        v = ('fread', fo['path'], fo['mode'], fo['pos'], args[0] if args else None)
+                        fo['pos'] = ('after',)
+                        return v
+                    if f.attr == 'close' and not args:
+                        return ('none',)
+        raise TranslateError(f'line {getattr(e, "lineno", "?")}: FileInfo.read/verify: expression {ast.unparse(e)[:70]!r} not understood')
+
+    def run(self, stmts) -> None:
+        for s in stmts:
+            if isinstance(s, ast.Expr) and isinstance(s.value, ast.Constant):
+                continue
+            if isinstance(s, ast.Pass):
+                continue
+            if isinstance(s, ast.Return):
+                raise _RetV(('none',) if s.value is None else self.ev(s.value))
+            if isinstance(s, ast.Assign) and all(isinstance(t, ast.Name) for t in s.targets):
+                v = self.ev(s.value)
+                for t in s.targets:
+                    self.env[t.id] = v
+            elif isinstance(s, ast.AugAssign) and isinstance(s.op, ast.Add) and isinstance(s.target, ast.Name) and s.target.id in self.env:
+                self.env[s.target.id] = ('cat', self.env[s.target.id], self.ev(s.value))
+            elif isinstance(s, ast.If):
+                self.run(s.body if self.truth(self.ev(s.test), s) else s.orelse)
+            elif isinstance(s, ast.With) and len(s.items) == 1:
+                v = self.ev(s.items[0].context_expr)
+                if isinstance(s.items[0].optional_vars, ast.Name):
+                    self.env[s.items[0].optional_vars.id] = v
+                elif s.items[0].optional_vars is not None:
+                    raise TranslateError(f'line {s.lineno}: FileInfo.read/verify: with-target not understood')
+                self.run(s.body)
+            elif isinstance(s, ast.Expr):
+                self.ev(s.value)
+            else:
+                raise TranslateError(f'line {s.lineno}: FileInfo.read/verify: statement {ast.unparse(s)[:70]!r} not understood')
+
+
+def _run_reader(fn: ast.FunctionDef, cls: ast.ClassDef, scen: dict, depth: int = 0):
+    params = [a.arg for a in fn.args.posonlyargs + fn.args.args]
+    st = _SymR(scen, params[0], cls, depth)
+    try:
+        st.run(fn.body)
+    except _RetV as r:
+        return r.v, st
+    return ('none',), st
+
+
+def _content(v: tuple) -> tuple:
+    """the byte string a value stands for, as a flat concatenation"""
+    if v[0] == 'cat':
+        return _content(v[1]) + _content(v[2])
+    return (v,)
+
+
+def _cksum_content(v: tuple):
+    """checksum(b, checksum(a)) is checksum(a + b) (zlib.crc32 chaining, assumed): the content a checksum value covers"""
+    if v[0] == 'cksum':
+        return _content(v[1])
+    if v[0] == 'cksum2':
+        inner = _cksum_content(v[2])
+        return None if inner is None else inner + _content(v[1])
+    return None
+
+
+def analyse_readers(cls: ast.ClassDef) -> dict:
+    """Rows (arch_len zero?, arch_index None?) -> where read() takes the bytes after start_data from, and whether verify() compares the
+    checksum of exactly those bytes with self.crc."""
+    fread = [n for n in cls.body if isinstance(n, ast.FunctionDef) and n.name == 'read'][0]
+    fver = [n for n in cls.body if isinstance(n, ast.FunctionDef) and n.name == 'verify'][0]
+    rows = []
+    facts = {'join_folder': True, 'mode_rb': True, 'index_is_stored': True, 'prefix_exprs': set()}
+    for alen_zero, idx_none in itertools.product((False, True), (False, True)):
+        scen = {'alen_zero': alen_zero, 'idx_none': idx_none}
+        rv, _ = _run_reader(fread, cls, scen)
+        vv, _ = _run_reader(fver, cls, scen)
+        rc = _content(rv)
+
+        def classify(c):
+            if c == (('start',),):
+                return 'RNone'
+            if c == (('start',), ('fslice',)):
+                return 'RFooter'
+            if len(c) == 2 and c[0] == ('start',) and c[1][0] == 'fread':
+                _, path, mode, pos, n = c[1]
+                ok = path[0] == 'join' and len(path) == 3 and path[1] == ('folder',) and path[2][0] == 'archname'
+                facts['join_folder'] &= ok
+                facts['mode_rb'] &= mode == 'rb'
+                if ok:
+                    facts['index_is_stored'] &= path[2][2] == ('idx',)
+                    facts['prefix_exprs'].add(str(path[2][1]))
+                return 'RArch' if ok and pos == ('off',) and n == ('alen',) else 'ROther'
+            return 'ROther'
+        src = classify(rc)
+        vc = None
+        if vv[0] == 'eq' and ('crc',) in (vv[1], vv[2]):
+            vc = _cksum_content(vv[1] if vv[2] == ('crc',) else vv[2])
+        vsrc = classify(vc) if vc is not None else 'ROther'
+        rows.append({'alen_zero': alen_zero, 'idx_none': idx_none, 'read': src, 'verify': vsrc})
+    facts['prefix_exprs'] = sorted(facts['prefix_exprs'])
+    return {'rows': rows, 'facts': facts}
+
+
+def coq_read_rows(rows: list[dict]) -> str:
+    b = lambda x: 'true' if x else 'false'
+    return '[' + '; '.join(f'mkRRow {b(r["alen_zero"])} {b(r["idx_none"])} {r["read"]} {r["verify"]}' for r in rows) + ']'
